@@ -204,6 +204,193 @@ def case_job(job):
     return events
 
 
+# ------------------------------------------------------------------ header-label references (RefLabels.tla)
+NL = 3
+LABEL = {"x": "north east", "y": "south", "z": "mid", "": None}
+
+
+def rl_cfg(bug="none", emit=False, nl=3, maxtotal=2, inv=True):
+    return ('CONSTANTS MaxSheets = 2\nMaxTables = 2\nTableNames = {"A", "B"}\nBug = "%s"\nLabels = {"x", "y"}\nNL = %d\nMaxTotal = %d\nSPECIFICATION LSpec\n%s%sCHECK_DEADLOCK FALSE\n'
+            % (bug, nl, maxtotal, "INVARIANT SpanDenotesTarget\nINVARIANT SingleDenotesTarget\nINVARIANT NoHalfLabels\n" if inv else "", "INVARIANT EmitLabelCase\n" if emit else ""))
+
+
+def build_label_doc(ns, labs, axis):
+    """tables whose labelled axis has NL lines: axis 'cols' -> one header row holding the labels, 'rows' -> one header column"""
+    from numbers_parser import Document
+    shape = dict(num_rows=5, num_cols=NL, num_header_rows=1, num_header_cols=0) if axis == "cols" else dict(num_rows=NL, num_cols=5, num_header_rows=0, num_header_cols=1)
+    doc = Document(sheet_name=SHEET[1], table_name=TABLE[ns[0][0]], **shape)
+    for t in ns[0][1:]:
+        doc.sheets[0].add_table(TABLE[t], **shape)
+    for si, tabs in enumerate(ns[1:], start=2):
+        doc.add_sheet(SHEET[si], TABLE[tabs[0]], shape["num_rows"], shape["num_cols"])
+        sh = doc.sheets[si - 1]
+        sh.tables[0].num_header_rows = shape["num_header_rows"]
+        sh.tables[0].num_header_cols = shape["num_header_cols"]
+        for t in tabs[1:]:
+            sh.add_table(TABLE[t], **shape)
+    for si, tabs in enumerate(ns):
+        for ti, _ in enumerate(tabs):
+            tb = doc.sheets[si].tables[ti]
+            for k, l in enumerate(labs[si][ti]):
+                if LABEL[l] is not None:
+                    if axis == "cols":
+                        tb.write(0, k, LABEL[l])
+                    else:
+                        tb.write(k, 0, LABEL[l])
+    return doc
+
+
+def line_node(model, target_tb, axis, i, j, ab, single, hr, hc, cross):
+    """the stored node for lines i..j (0-based) of the target's labelled axis, as seen from host cell (hr, hc)"""
+    from numbers_parser.generated import TSCEArchives_pb2 as TSCE
+    from numbers_parser.numbers_uuid import NumbersUUID
+    off = hr if axis == "rows" else hc
+    if single:
+        v = {"absolute": ab}
+        v["row" if axis == "rows" else "column"] = i if ab else i - off
+        node = {"AST_node_type": "CELL_REFERENCE_NODE", "AST_row" if axis == "rows" else "AST_column": v}
+        if cross:
+            node["AST_cross_table_reference_extra_info"] = TSCE.ASTNodeArrayArchive.ASTCrossTableReferenceExtraInfoArchive(
+                table_id=NumbersUUID(model.table_base_id(target_tb._table_id)).protobuf4)
+        return node
+    b, e = ([i, True], [j, True]) if ab else ([i - off, False], [j - off, False])
+    z = [0, False]
+    ends = [b, z, e, z] if axis == "rows" else [z, b, z, e]
+    return make_node(model, target_tb, axis, ends, cross)
+
+
+def parse_line_text(text, axis, snames, single):
+    """the printed reference -> qualifiers and a body of one or two ends, each a label or a line number"""
+    out = {"wellformed": False, "num": False, "sq": 0, "tq": "", "l1": "", "l2": "", "n1": 0, "n2": 0, "a1": False, "a2": False}
+    if text is None:
+        return out
+    parts = text.split("::")
+    if len(parts) > 3:
+        return out
+    ends = parts[-1].split(":")
+    if len(ends) > 2:
+        return out
+    if len(parts) >= 2:
+        out["tq"] = parts[-2]
+    if len(parts) == 3:
+        out["sq"] = snames.index(parts[0]) + 1 if parts[0] in snames else -1
+    kinds = []
+    for k, e in enumerate(ends):
+        a = e.startswith("$")
+        tok = e[1:] if a else e
+        if axis == "rows" and re.fullmatch(r"\d+", tok):
+            kinds.append(("n", int(tok), a))                # row k (0-based) prints as k+1 = its 1-based line index (no header rows)
+        elif axis == "cols" and re.fullmatch(r"[A-Z]+", tok):
+            n = 0
+            for ch in tok:
+                n = n * 26 + ord(ch) - 64
+            kinds.append(("n", n, a))
+        else:
+            kinds.append(("l", tok, a))
+    if len(kinds) == 1:
+        kinds = kinds * 2
+    if kinds[0][0] != kinds[1][0]:
+        return out                                            # half label, half number
+    out["wellformed"] = True
+    out["num"] = kinds[0][0] == "n"
+    out["a1"], out["a2"] = kinds[0][2], kinds[1][2]
+    if out["num"]:
+        out["n1"], out["n2"] = kinds[0][1], kinds[1][1]
+    else:
+        out["l1"], out["l2"] = kinds[0][1], kinds[1][1]
+    return out
+
+
+def label_job(job):
+    (idx, ns, labs, axis, refs, scratch, reopen) = job
+    warnings.simplefilter("ignore")
+    from numbers_parser import Document
+    from numbers_parser.generated import TSCEArchives_pb2 as TSCE
+    doc = build_label_doc(ns, labs, axis)
+    model = doc._model
+    plan, used = [], {}
+    for (host, target, i, j, ab, single) in refs:
+        host, target = tuple(host), tuple(target)
+        htb = doc.sheets[host[0] - 1].tables[host[1] - 1]
+        ttb = doc.sheets[target[0] - 1].tables[target[1] - 1]
+        k = used.get(host, 0)
+        if k >= 12:
+            continue
+        if k == 0:
+            model._formulas.add_table(htb._table_id)
+        used[host] = k + 1
+        # body cells only: below the header row / right of the header column
+        (hr, hc) = (1 + k // NL, k % NL) if axis == "cols" else (k % NL, 1 + k // NL)
+        node = line_node(model, ttb, axis, i - 1, j - 1, ab, single, hr, hc, host != target)
+        htb.write(hr, hc, 1.0)
+        key = model._formulas.lookup_key(htb._table_id, TSCE.FormulaArchive(**{"AST_node_array": {"AST_node": [node]}}))
+        htb.rows()[hr][hc]._formula_id = key
+        plan.append({"host": list(host), "target": list(target), "i": i, "j": j, "ab": ab, "single": single, "hr": hr, "hc": hc, "axis": axis})
+    events = []
+
+    def observe(d, phase):
+        names = [[t.name for t in sh.tables] for sh in d.sheets]
+        snames = [sh.name for sh in d.sheets]
+        seen = []
+        for sh in d.sheets:
+            seen.append([])
+            for tb in sh.tables:
+                seen[-1].append([(tb.cell(0, k) if axis == "cols" else tb.cell(k, 0)).formatted_value or "" for k in range(NL)])
+        for p in plan:
+            tb = d.sheets[p["host"][0] - 1].tables[p["host"][1] - 1]
+            e = dict(p)
+            e.update(phase=phase, ns=names, labs=seen)
+            try:
+                text = tb.cell(p["hr"], p["hc"]).formula
+            except Exception as ex:  # noqa: BLE001
+                text = None
+                e["exc"] = "%s:%s" % (type(ex).__name__, str(ex)[:60])
+            e["text"] = text
+            e.update(parse_line_text(text, axis, snames, p["single"]))
+            events.append(e)
+    observe(doc, "open")
+    if reopen:
+        path = os.path.join(scratch, "c09l-%d-%d.numbers" % (os.getpid(), idx))
+        try:
+            doc.save(path)
+            observe(Document(path), "reopened")
+        finally:
+            if os.path.exists(path):
+                os.remove(path)
+    return events
+
+
+LKEYS = ("ns", "labs", "host", "target", "i", "j", "ab", "single", "wellformed", "num", "sq", "tq", "l1", "l2", "n1", "n2", "a1", "a2")
+
+
+def judge_labels(ctx, events, count=True):
+    B = 20000
+    for b0 in range(0, len(events), B):
+        part = events[b0:b0 + B]
+        path = os.path.join(ctx.scratch, "rl-%d.ndjson" % b0)
+        with open(path, "w") as fh:
+            for e in part:
+                fh.write(json.dumps({k: e[k] for k in LKEYS}) + "\n")
+        res = ctx.tlc("Trace_RefLabels", "Trace_RefLabels.cfg", what="Trace_RefLabels[%d]" % b0, env={"TRACE_FILE": path}, timeout=1800, count=count)
+        os.remove(path)
+        seen = {int(m.group(1)): (m.group(2), m.group(3)) for m in re.finditer(r'^"V (\d+) ([\w.\-]+) (\w+)"$', res.out, re.M)}
+        if len(seen) != len(part):
+            raise Machinery("Trace_RefLabels: %d verdicts for %d events\n%s" % (len(seen), len(part), res.out[-1500:]))
+        if count:
+            ctx.traces += len(part)
+        for tid, (v, d) in seen.items():
+            e = part[tid - 1]
+            where = "namespace %s labels %s (%s) host %s cell (%d,%d) -> target %s lines %d..%d %s%s prints %r (%s)" % (
+                json.dumps(e["ns"]), json.dumps(e["labs"]), e["axis"], e["host"], e["hr"], e["hc"], e["target"], e["i"], e["j"],
+                "absolute" if e["ab"] else "relative", " single" if e["single"] else "", e["text"], e["phase"])
+            if v != "ok":
+                ctx.fail({"engine": "trace-labels", "clause": v, "axis": e["axis"], "phase": e["phase"], "single": e["single"], "cross": e["host"] != e["target"],
+                          "exc": (e.get("exc") or "").split(":")[0]}, where,
+                         {k: e[k] for k in ("ns", "labs", "axis", "host", "target", "i", "j", "ab", "single")})
+            elif d != "same":
+                ctx.drifted("label reference: printed text differs from RefLabels.tla Printed2: " + where)
+
+
 def judge(ctx, events, count=True):
     B = 20000
     for b0 in range(0, len(events), B):
@@ -234,7 +421,8 @@ def run(ctx):
                 "sheets or not) to 1..3 sheets x 1..2 tables enumerated by TLC, plus seeded 4x4 ones; references = cells, rectangles, row spans, column spans with "
                 "every absolute/relative combination and offsets inside a 4x4 table at varying host cells; read on the open document and after save/reopen; "
                 "distinct_nontrivial = distinct (namespace, host, target, stored reference) cases that cross tables or mix absolute and relative ends")
-    ctx.assumptions = ["tables have no header rows/columns, so bodies are printed in A1 form (header-label bodies: see DESIGN.md, not judged)",
+    ctx.assumptions = ["label references: one labelled axis per document (all tables label their columns, or all their rows), text labels; a label repeated on the "
+                       "axis of its table names nothing (Numbers' own convention), a span names lines of one table that carries both labels",
                        "mixed absolute/relative range ends are stored the way the library's own reader and writer agree on"]
     ctx.stage("model-check")
     cases, renames = [], {}
@@ -297,8 +485,84 @@ def run(ctx):
     ctx.sample({"namespace": x["ns"], "host": x["host"], "host_cell": [x["hr"], x["hc"]], "target": x["target"], "stored": [x["kind"], x["ends"]], "printed": x["text"]})
     ctx.stage("judge")
     judge(ctx, events)
+    # ---- header-label references (RefLabels.tla)
+    ctx.stage("labels-model-check")
+    lcases = []
+
+    def lhandle(line):
+        m = re.match(r'^"L (<<.*>>) <<(\d+), (\d+)>> <<(\d+), (\d+)>> (<<.*>>) <<(\d+), (\d+)>> (TRUE|FALSE)"$', line)
+        if m:
+            ns = [re.findall(r"(\w)", s) for s in re.findall(r"<<((?:\\?\"\w\\?\"(?:, )?)+)>>", m.group(1))]
+            flat = re.findall(r"<<((?:\\?\"\w?\\?\"(?:, )?)+)>>", m.group(6))
+            rows = [[t.strip().strip('\\"') for t in f.split(",")] for f in flat]
+            labs, k = [], 0
+            for sh in ns:
+                labs.append(rows[k:k + len(sh)])
+                k += len(sh)
+            lcases.append((ns, labs, (int(m.group(2)), int(m.group(3))), (int(m.group(4)), int(m.group(5))), int(m.group(7)), int(m.group(8)), m.group(9) == "TRUE"))
+            return True
+        return False
+    ctx.tlc("RefLabels", rl_cfg(emit=True, nl=3, maxtotal=2), what="MC_RefLabels[<=2 tables, 3 lines, labels x y or empty]", stream_to=lhandle, timeout=3000)
+    ctx.tlc("RefLabels", rl_cfg(nl=2, maxtotal=3), what="MC_RefLabels[<=3 tables, 2 lines]", timeout=3000)
+    if not q:
+        ctx.tlc("RefLabels", rl_cfg(nl=3, maxtotal=3), what="MC_RefLabels[<=3 tables, 3 lines]", timeout=7200, heap="12g")
+    for b in ("EmptyLabelUsable", "SpanEndUnchecked", "SheetScopeAnywhere"):
+        ctx.tlc("RefLabels", rl_cfg(b, nl=3, maxtotal=2), what="Bug_" + b, expect_violation="SpanDenotesTarget", count=False)
+    if len(lcases) < 100000:
+        raise Machinery("only %d label cases parsed" % len(lcases))
+    ctx.stage("labels-replay")
+    bydoc = {}
+    for (ns, labs, h, t, i, j, ab) in lcases:
+        bydoc.setdefault(json.dumps([ns, labs]), []).append((h, t, i, j, ab))
+    dkeys = sorted(bydoc)
+    ctx.extra["label_cases_from_tlc"] = {"cases": len(lcases), "documents": len(dkeys)}
+    ljobs = []
+    for n, k in enumerate(rng.sample(dkeys, min(len(dkeys), 240 if q else 4000))):
+        ns, labs = json.loads(k)
+        refs = bydoc[k]
+        refs = rng.sample(refs, min(len(refs), 20))
+        full = []
+        for (h, t, i, j, ab) in refs:
+            full.append((h, t, i, j, ab, False))
+            if i == j:
+                full.append((h, t, i, j, ab, True))
+        ljobs.append((n, ns, labs, "cols" if n % 2 == 0 else "rows", full, ctx.scratch, n % 4 == 0))
+    # larger documents: up to 3 sheets x 3 tables, a third label, random references
+    for n in range(40 if q else 1500):
+        ns = [rng.sample(["A", "B", "C"], rng.randint(1, 3)) for _ in range(rng.randint(1, 3))]
+        labs = [[[rng.choice(["x", "y", "z", "", "x"]) for _ in range(NL)] for _ in sh] for sh in ns]
+        tabs = [(s + 1, t + 1) for s in range(len(ns)) for t in range(len(ns[s]))]
+        full = []
+        for _ in range(30):
+            i = rng.randint(1, NL)
+            j = rng.randint(i, NL)
+            full.append((rng.choice(tabs), rng.choice(tabs), i, j, rng.random() < 0.5, i == j and rng.random() < 0.5))
+        ljobs.append((50000 + n, ns, labs, "cols" if n % 2 == 0 else "rows", full, ctx.scratch, n % 4 == 0))
+    lres = fixtures.pmap(label_job, ljobs, ctx.workers, chunksize=2)
+    levents = [e for lst in lres for e in lst]
+    ctx.evaluations += len(levents)
+    for e in levents:
+        ctx.distinct.add(("label", json.dumps(e["ns"]), json.dumps(e["labs"]), e["axis"], tuple(e["host"]), tuple(e["target"]), e["i"], e["j"], e["ab"], e["single"]))
+    lx = next(e for e in levents if e["host"] != e["target"] and not e["num"] and e["wellformed"])
+    ctx.sample({"namespace": lx["ns"], "labels": lx["labs"], "axis": lx["axis"], "host": lx["host"], "target": lx["target"], "lines": [lx["i"], lx["j"]], "printed": lx["text"]})
+    ctx.extra["label_events"] = {"events": len(levents), "printed_with_labels": sum(1 for e in levents if e["wellformed"] and not e["num"]),
+                                 "printed_with_numbers": sum(1 for e in levents if e["wellformed"] and e["num"])}
+    ctx.stage("labels-judge")
+    judge_labels(ctx, levents)
     ctx.stage("selftest")
     import copy
+    c1 = copy.deepcopy(lx)
+    c1["l1"] = c1["l2"] = "no such label"
+    c2 = copy.deepcopy(lx)
+    c2["tq"], c2["sq"] = "", 0
+    c2["labs"] = [[[lx["l1"]] * NL for _ in sh] for sh in lx["ns"]]
+    saved = ctx.failures
+    ctx.failures = []
+    judge_labels(ctx, [c1, c2], count=False)
+    got = sorted(f[0]["clause"] for f in ctx.failures)
+    ctx.failures = saved
+    if got != ["label-denotes-nothing", "label-denotes-nothing"]:
+        raise Machinery("binding self-test (labels): corrupted events judged %s" % got)
     b1 = copy.deepcopy(x)
     b1["tq"] = ""
     b2 = copy.deepcopy(x)
